@@ -118,6 +118,7 @@ fn main() {
         }
         "dbstats" => checks::dbstats(),
         "worker" => sandbox::worker_main(),
+        "emit" => checks::c07::emit_main(),
         _ => usage(),
     }
 }
